@@ -356,3 +356,22 @@ prop(
     exhaustive_scope="all 256 exit codes and all 23 terminating signals (endings); histories are sampled",
     assumptions=["an unbounded wait for a child that never ends is replaced by a bounded one (C07/C15 cover unbounded waits)", "stop actions are in range here (out-of-range is C07/C14)"],
 )
+
+prop(
+    "C15",
+    title="Destroy applies the stop policy; the default never abandons a running child",
+    level="exploration",
+    engine="vtime",
+    campaigns=[dict(bin="C15", sweep=True, random=dict(quick=3000, thorough=60000))],
+    level_text=("The stop policy stored at start is generated like C07's (all 125 action shapes x 8 child behaviours enumerated, timeouts/deadline/times from the tape); destroy is then called in every "
+                "handle state: running, exited but unreaped, reaped, never started, failed start, child side of a fork, NULL - through reproc_destroy and through reproc::process's destructor. On the "
+                "virtual clock the C07 interpreter applied to the stored policy predicts the signals with time stamps, the duration and whether the child is reaped; for the default policy: no SIGKILL, "
+                "SIGTERM at most once and never before the deadline, and destroy still waiting when nothing can happen any more (detected, not timed). NULL return and a clean ledger in every state; "
+                "no kill/waitpid for not-started, failed, reaped and child-side handles."),
+    level_note="A non-default policy may legitimately leave a live child behind; then only faithful execution of the policy is demanded. Virtual time as in C07.",
+    technique="model-based property testing on the virtual-time engine (rapidcheck tape + exhaustive action shapes), stop-contract interpreter as oracle, C and C++ entry points",
+    rule=("sweep index -> (action shape of the stored policy, child behaviour); tape -> timeouts, deadline, time of destroy, prior wait, handle state, C or C++. Non-trivial: destroy was called on a "
+          "running or unreaped child, or in the failed-start / child-side state. Distinct: hash of policy, behaviour, state and times."),
+    essential=dict(quick=["destroy-on-running-child", "destroy-on-exited-unreaped", "destroy-on-reaped", "default-policy", "via-cxx-destructor", "policy-waits-unbounded", "policy-times-out", "state:failed-start", "state:fork-child-side", "state:not-started", "state:NULL", "with-deadline"]),
+    assumptions=["in the forked-child state only destroy is legal (reproc.h); nothing more is demanded of it than NULL, no signal, no wait"],
+)
